@@ -3,6 +3,8 @@ package main
 import (
 	"fmt"
 	"go/ast"
+	"go/token"
+	"go/types"
 	"sort"
 	"strings"
 )
@@ -225,4 +227,201 @@ func isRuneStart(b byte) bool { return b&0xC0 != 0x80 }
 
 func sortMembers(ms []*Member) {
 	sort.Slice(ms, func(i, j int) bool { return ms[i].Lit.Pos() < ms[j].Lit.Pos() })
+}
+
+// outerLabels finds kind switches whose single-label arms each call a distinct function of
+// identical signature (func1ret1 dispatching to func1ret1Int8, func1ret1Int16, ...): the
+// callee is thereby labelled with the arm's kind.
+func outerLabels(c *Ctx, short string) (map[*ast.FuncDecl]string, map[*ast.FuncDecl]token.Pos) {
+	pk := c.P.Pkg(short)
+	info := pk.TypesInfo
+	label := map[*ast.FuncDecl]string{}
+	sw := map[*ast.FuncDecl]token.Pos{}
+	for _, fd := range c.P.FuncsOf(short) {
+		if fd.Body == nil {
+			continue
+		}
+		ast.Inspect(fd.Body, func(n ast.Node) bool {
+			s, ok := n.(*ast.SwitchStmt)
+			if !ok || s.Tag == nil || !isReflectKind(info.TypeOf(s.Tag)) {
+				return true
+			}
+			type armCallee struct {
+				kind string
+				fn   *types.Func
+			}
+			var arms []armCallee
+			okAll := true
+			for _, cc := range s.Body.List {
+				cl := cc.(*ast.CaseClause)
+				if len(cl.List) != 1 || len(cl.Body) != 1 {
+					if cl.List == nil {
+						continue
+					}
+					okAll = false
+					continue
+				}
+				var call *ast.CallExpr
+				switch st := cl.Body[0].(type) {
+				case *ast.AssignStmt:
+					if len(st.Rhs) == 1 {
+						call, _ = unparen(st.Rhs[0]).(*ast.CallExpr)
+					}
+				case *ast.ReturnStmt:
+					if len(st.Results) == 1 {
+						call, _ = unparen(st.Results[0]).(*ast.CallExpr)
+					}
+				}
+				if call == nil {
+					okAll = false
+					continue
+				}
+				fn := calleeOf(info, call)
+				if fn == nil || fn.Pkg() != pk.Types {
+					okAll = false
+					continue
+				}
+				arms = append(arms, armCallee{kindLabel(info, cl.List[0]), fn})
+			}
+			if !okAll || len(arms) < 4 {
+				return true
+			}
+			seen := map[*types.Func]bool{}
+			sig := types.TypeString(arms[0].fn.Type(), nil)
+			for _, a := range arms {
+				if seen[a.fn] || types.TypeString(a.fn.Type(), nil) != sig {
+					return true
+				}
+				seen[a.fn] = true
+			}
+			for _, a := range arms {
+				if cfd := c.P.Func(funcFullName(a.fn)); cfd != nil {
+					label[cfd] = a.kind
+					sw[cfd] = s.Pos()
+				}
+			}
+			return true
+		})
+	}
+	return label, sw
+}
+
+// ruleUniformity2D: members at the same position of sibling functions that one kind
+// switch dispatches to (outer label) must have the same canonical term, modulo the outer
+// and the inner label types. This covers the arms that are alone in their category
+// inside one function (Bool, String results).
+func ruleUniformity2D(c *Ctx, short string, files []string, rule string) {
+	fd := families(c, short)
+	ms := fd.members
+	if len(files) > 0 {
+		ms = inFiles(c, ms, files...)
+	}
+	labels, sws := outerLabels(c, short)
+	type group struct{ members []*Member }
+	groups := map[string]*group{}
+	var order []string
+	for _, m := range ms {
+		ol, ok := labels[m.FD]
+		if !ok {
+			continue
+		}
+		if _, isBasic := kindToBasic[ol]; !isBasic {
+			continue
+		}
+		gk := fmt.Sprintf("%d|%s|%d", sws[m.FD], m.pathString(0), m.Ord)
+		g := groups[gk]
+		if g == nil {
+			g = &group{}
+			groups[gk] = g
+			order = append(order, gk)
+		}
+		g.members = append(g.members, m)
+	}
+	outerT := func(m *Member) types.Type { return types.Typ[kindToBasic[labels[m.FD]]] }
+	nfam := 0
+	for _, gk := range order {
+		g := groups[gk]
+		if len(g.members) < 3 {
+			continue
+		}
+		nfam++
+		canon := map[*Member]string{}
+		for _, m := range g.members {
+			canon[m] = canonMember(c.P.Fset, m, fd.di[m.FD])
+		}
+		byCat := map[string][]*Member{}
+		var cats []string
+		for _, m := range g.members {
+			cat := kindCategory(labels[m.FD])
+			if byCat[cat] == nil {
+				cats = append(cats, cat)
+			}
+			byCat[cat] = append(byCat[cat], m)
+		}
+		reported := map[*Member]bool{}
+		for _, cat := range cats {
+			var classes [][]*Member
+			for _, m := range byCat[cat] {
+				placed := false
+				for i, cl := range classes {
+					if termsMatch2(canon[cl[0]], canon[m], cl[0].Tau, outerT(cl[0]), m.Tau, outerT(m)) {
+						classes[i] = append(cl, m)
+						placed = true
+						break
+					}
+				}
+				if !placed {
+					classes = append(classes, []*Member{m})
+				}
+			}
+			if len(classes) == 1 {
+				continue
+			}
+			sort.SliceStable(classes, func(i, j int) bool { return len(classes[i]) > len(classes[j]) })
+			tie := len(classes[0]) == len(classes[1])
+			matchesOther := func(m *Member) bool {
+				for _, oc := range cats {
+					if oc == cat {
+						continue
+					}
+					for _, o := range byCat[oc] {
+						if termsMatch2(canon[o], canon[m], o.Tau, outerT(o), m.Tau, outerT(m)) {
+							return true
+						}
+					}
+				}
+				return false
+			}
+			for i, cl := range classes {
+				if i == 0 && !tie {
+					continue
+				}
+				for _, m := range cl {
+					if tie && matchesOther(m) {
+						continue
+					}
+					ref := classes[0][0]
+					if ref == m {
+						ref = classes[1][0]
+					}
+					reported[m] = true
+					c.Ob(rule, m.Key(), m.Lit, false, "differs from the same arm of the sibling functions dispatched for the other "+cat+" kinds: "+diffTerms(showTerm(showOuter(canon[ref], outerT(ref)), ref.Tau), showTerm(showOuter(canon[m], outerT(m)), m.Tau)))
+				}
+			}
+		}
+		for _, m := range g.members {
+			if !reported[m] {
+				c.Ob(rule, m.Key(), m.Lit, true, "agrees with the same arm of its sibling functions")
+			}
+		}
+	}
+	c.Extra(rule+"_families", nfam)
+}
+
+// showOuter renders the outer label's type as σ.
+func showOuter(a string, t types.Type) string {
+	if b, ok := t.(*types.Basic); ok {
+		a = strings.ReplaceAll(a, "⟦"+b.Name()+"⟧", "σ")
+	}
+	return a
 }
